@@ -18,7 +18,16 @@ import hugr.model as model
 from hugr._serialization.ops import OpType as SerialOp
 from hugr._serialization.serial_hugr import SerialHugr
 from hugr.exceptions import ParentBeforeChild
-from hugr.ops import Call, Const, Custom, DataflowOp, Module, Op
+from hugr.ops import (
+    Call,
+    Const,
+    Custom,
+    DataflowOp,
+    LoadConst,
+    LoadFunc,
+    Module,
+    Op,
+)
 from hugr.tys import Kind, Type, ValueKind
 from hugr.utils import BiMap
 from hugr.val import Value
@@ -69,6 +78,26 @@ P = TypeVar("P", InPort, OutPort)
 K = TypeVar("K", InPort, OutPort)
 OpVar = TypeVar("OpVar", bound=Op)
 OpVarCov = TypeVar("OpVarCov", bound=Op, covariant=True)
+
+
+def _order_port_offset(op: Op, direction: Direction) -> PortOffset | None:
+    """Offset at which a state-order edge of a dataflow operation is serialized:
+    the first port after the value ports and the static (function / constant)
+    input port. None for operations without an order port.
+    """
+    if isinstance(op, Call):
+        sig = op.instantiation
+        if direction == Direction.INCOMING:
+            return len(sig.input) + 1
+        return len(sig.output)
+    if isinstance(op, DataflowOp):
+        sig = op.outer_signature()
+        if direction == Direction.INCOMING:
+            # LoadConst / LoadFunc: one static input after the (empty) value inputs
+            static = 1 if isinstance(op, LoadConst | LoadFunc) else 0
+            return len(sig.input) + static
+        return len(sig.output)
+    return None
 
 
 @dataclass()
@@ -726,7 +755,13 @@ class Hugr(Mapping[Node, NodeData], Generic[OpVarCov]):
         # not counted in the number of ports.
         if p.offset < 0:
             assert p.offset == -1, "Only order edges are allowed with offset < 0"
-            offset = self.num_ports(p.node, p.direction)
+            # the order port comes right after the ports of the operation's
+            # signature, however many of them are connected
+            order_offset = _order_port_offset(self[p.node].op, p.direction)
+            if order_offset is not None:
+                offset = order_offset
+            else:
+                offset = self.num_ports(p.node, p.direction)
         else:
             offset = p.offset
 
